@@ -1790,6 +1790,37 @@ pub fn selftests() -> Vec<(&'static str, bool, String)> {
         1500,
         None,
     );
+    let monitor = |recheck: bool| {
+        let wait = if recheck { "(let loop () (when busy (wait-condition-variable cv m) (loop)))" } else { "(when busy (wait-condition-variable cv m))" };
+        format!("(p (current-output-port)) (m (make-mutex)) (cv (make-condition-variable)) (busy #f) (pr (lambda (l) (lock-mutex m) {wait} (set! busy #t) (unlock-mutex m) (display l p) (display #\\x0a p) (lock-mutex m) (set! busy #f) (signal-condition-variable cv) (unlock-mutex m)))")
+    };
+    case(
+        "monitor with a condition variable, the condition re-checked after every wake-up: never torn, no deadlock",
+        &w3,
+        wrap_program(&monitor(true), "(call-with-relative-path pr)"),
+        None,
+        3000,
+        None,
+    );
+    case(
+        "monitor whose waiters do not re-check the condition after waking: torn line is found",
+        &w3,
+        wrap_program(&monitor(false), "(call-with-relative-path pr)"),
+        None,
+        6000,
+        Some(&["torn-line", "mixed-line", "records-lost-or-altered"]),
+    );
+    case(
+        "a thread created by the program writes the record under the lock and is joined: never torn",
+        &w3,
+        wrap_program(
+            "(p (current-output-port)) (m (make-mutex)) (pr (lambda (l) (join-thread (call-with-new-thread (lambda () (with-mutex m (display l p) (display #\\x0a p)))))))",
+            "(call-with-relative-path pr)",
+        ),
+        None,
+        1500,
+        None,
+    );
     case(
         "quote, pairs and association lists: evaluated; records queued per call and written under the lock",
         &w3,
